@@ -174,7 +174,7 @@ def enum_listed(ctx):
         if d.mcv in ("OHx", "OHe"):
             yield {"mcv": d.mcv, "seed": 0}
             continue
-        for k in range(3 if ctx.tier == "quick" else 40):
+        for k in range((6 if d.mcv in ("OAs", "OAr") else 3) if ctx.tier == "quick" else 40):
             yield {"mcv": d.mcv, "seed": k}
         if d.model in ("V", "6"):
             yield {"mcv": d.mcv, "seed": 1, "state": "cooling"}
@@ -208,6 +208,11 @@ def run_listed(case, ctx):
     req = {"ovni": models["O"][1]}
     req[name] = ver
     pre, args, suf, extra = recipe(mcv, regs)
+    # CPU numbering of the loom: logical index and physical id equal, shifted or crossed; an
+    # affinity event names the CPU the thread is already on (index 0) or the other one
+    numbering = [[[0, 0], [1, 1]], [[0, 4], [1, 5]], [[0, 1], [1, 0]]][case["seed"] % 3]
+    if mcv == "OAs":
+        args = [(case["seed"] // 3) % 2]
 
     def mk(x, clk):
         if isinstance(x, tuple):
@@ -253,7 +258,7 @@ def run_listed(case, ctx):
         clk += 5
         evs.append(T.plain(x, clk))
     evs.append(T.plain("OHe", clk + 5))
-    s = {"loom": "n.0", "pid": 1, "tid": 1, "app": 1, "cpus": [[0, 0], [1, 1]], "require": req, "events": evs,
+    s = {"loom": "n.0", "pid": 1, "tid": 1, "app": 1, "cpus": numbering, "require": req, "events": evs,
          "extra": extra}
     dd = ctx.newdir()
     try:
